@@ -17,6 +17,18 @@ import vlib
 
 PROPS = ["C08", "C18"]
 
+def _own_mapping(hdir, pkgdir, files):
+    """Overlay mapping of this family's own harness files only (harness/<hdir> may hold files of other families;
+    no shared kit: helpers of other families import packages that import the packages under test here)."""
+    m = {}
+    for f in files:
+        base = f[:-3]
+        if base.endswith("_test"):
+            base = base[:-5]
+        m["%s/zz_verif_%s_test.go" % (pkgdir, base)] = os.path.join(vlib.HARNESS, hdir, f)
+    return m
+
+
 def _tlc(*a, **kw):
     """vlib.tlc, retried once on an OS-level hiccup (spec/ is copied file by file while other files may be replaced)."""
     try:
@@ -85,7 +97,7 @@ def c08_harness(chk, snaps, dom, tag):
     with open(scen, "w") as fh:
         for o in snaps:
             fh.write(json.dumps({"id": o["id"], "snap": o["snap"]}) + "\n")
-    ov = vlib.overlay_for(vlib.harness_mapping("config", "internal/config", with_kit=False), os.path.join(chk.work, "ov_config"))
+    ov = vlib.overlay_for(_own_mapping("config", "internal/config", ["parse_test.go"]), os.path.join(chk.work, "ov_config"))
     rc, out = vlib.go_test("internal/config", "^TestVerifConfigParse$", ov,
                            {"VERIF_SCENARIOS": scen, "VERIF_OBS": obs, "VERIF_DOMAIN": dpath})
     if rc != 0:
@@ -345,7 +357,7 @@ def c18_load_harness(chk, scens, perms, reps, tag):
 
 
 def c18_go(chk, run, env):
-    ov = vlib.overlay_for(vlib.harness_mapping("k8scontrollers", "internal/k8s/controllers"), os.path.join(chk.work, "ov_ctrl"))
+    ov = vlib.overlay_for(_own_mapping("k8scontrollers", "internal/k8s/controllers", ["load_test.go", "recon_test.go", "cfgutil_test.go"]), os.path.join(chk.work, "ov_ctrl"))
     env = dict(env, VERIF_SEED=chk.seed)
     return vlib.go_test("internal/k8s/controllers", run, ov, env)
 
